@@ -56,6 +56,10 @@ Lin(a) ==
           /\ UNCHANGED <<hs, body, intReq, intEn, stopReq, cbReg, cbRan>>
        \* executed by the thread body itself (its own actor): an interruption point throws iff an
        \* interruption has been requested and interruption is enabled; reading stop_requested
+       \* a blocking wait that nobody but an interruption ends: it is an interruption point, so it returns
+       \* (by throwing) once an interruption has been requested and interruption is enabled
+       \/ /\ k = "block" /\ intReq[h] /\ intEn[h] /\ Done(a, 1)
+          /\ UNCHANGED <<hs, body, intReq, intEn, stopReq, cbReg, cbRan>>
        \/ /\ k = "ipoint" /\ Done(a, IF intReq[h] /\ intEn[h] THEN 1 ELSE 0)
           /\ UNCHANGED <<hs, body, intReq, intEn, stopReq, cbReg, cbRan>>
        \/ /\ k = "stop_seen" /\ Done(a, IF stopReq[h] THEN 1 ELSE 0)
@@ -83,7 +87,8 @@ ExitCb(h) == /\ body[h] = "finished" /\ cbRan[h] < cbReg[h]
              /\ UNCHANGED <<hs, body, intReq, intEn, stopReq, cbReg, op>>
 
 Obligation(a) ==
-    \/ op[a].st = "called" /\ op[a].kind \notin {"join", "destroy_j"}
+    \/ op[a].st = "called" /\ op[a].kind \notin {"join", "destroy_j", "block"}
+    \/ op[a].st = "called" /\ op[a].kind = "block" /\ intReq[op[a].h] /\ intEn[op[a].h]
     \/ op[a].st = "called" /\ op[a].kind = "join" /\ (hs[op[a].h] # "joinable" \/ Finished(op[a].h))
     \/ op[a].st = "called" /\ op[a].kind = "destroy_j"
           /\ (hs[op[a].h] # "joinable" \/ ~stopReq[op[a].h] \/ Finished(op[a].h))
